@@ -132,6 +132,17 @@ theorem final_value_identity [DecidableEq K] (hE : IsExp E) (f : ExpPoly K) (s :
 
 end
 
+/-! ### the result cache is keyed on every option that influences the result
+   (tables GENERATED by tx_ilt from the source text of `InverseLaplaceTransformer.key`, of the other methods of the class
+   and of `UnilateralInverseTransformer`; complete finite tables, decided outright) -/
+
+/-- every option the inverse transformer reads from `kwargs` is a component of the cache key -/
+theorem ilt_key_complete : Gen.keyTranslated = true ∧ ∀ o ∈ Gen.readOptions, o ∈ Gen.keyOptions := by decide
+
+/-- … and `key` uses the same default as every place that reads the option (otherwise "option omitted" and
+    "option given with its default" would be cached apart or, worse, together with the other value) -/
+theorem ilt_key_defaults_agree : ∀ od ∈ Gen.readOptionDefaults, od ∈ Gen.keyOptionDefaults := by decide
+
 section ordered
 variable {K : Type} [Field K] [LinearOrder K] [IsStrictOrderedRing K] (E : K → K)
 
